@@ -75,13 +75,17 @@ def isPow2 (n : Nat) : Bool := n ≠ 0 && n &&& (n - 1) = 0
 def mulLargeFrontier (W : Nat) (lhs rhs : List Nat) : TRepr :=
   ofNat W (val W lhs * val W rhs)
 
-/-- `mul_large(lhs, rhs)` (`mul_ops.rs mod repr`): equal operands go to `square_large` (frontier);
+/-- `square_large(words)` (`mul_ops.rs mod repr`): zero-filled buffer of `2·len` words, `sqr::sqr`,
+    `from_buffer` -/
+def squareLarge (W : Nat) (ws : List Nat) : TRepr := fromBuffer W (sqrBuffer W ws)
+
+/-- `mul_large(lhs, rhs)` (`mul_ops.rs mod repr`): equal operands go to `square_large`;
     otherwise a zero-filled buffer of `lhs.len() + rhs.len()` words is passed to `mul::multiply`, i.e.
     `mul::add_signed_mul(c, Positive, lhs, rhs)` (mirrored in `Model/Int/Mul.lean`: schoolbook,
     chunk splitting, Karatsuba; `toom_3::add_signed_mul_same_len` is the frontier kernel inside it),
     whose carry is asserted to be zero. -/
 def mulLarge (W : Nat) (lhs rhs : List Nat) : TRepr :=
-  if lhs = rhs then mulLargeFrontier W lhs lhs
+  if lhs = rhs then squareLarge W lhs
   else
     fromBuffer W (addSignedMul W (lhs.length + rhs.length)
       (List.replicate (lhs.length + rhs.length) 0) false lhs rhs).1
@@ -125,7 +129,7 @@ def TRepr.sqr (W : Nat) : TRepr → TRepr
       let lo := p % 2 ^ (2 * W)
       let hi := p / 2 ^ (2 * W)
       fromBuffer W [lo % 2 ^ W, lo / 2 ^ W, hi % 2 ^ W, hi / 2 ^ W]
-  | .large ws => mulLargeFrontier W ws ws
+  | .large ws => squareLarge W ws
 
 /-- `impl_ibig_mul`: `IBig(mag0.mul(mag1).with_sign(sign0 * sign1))` -/
 def ibigMul (W : Nat) (a b : SRepr) : SRepr :=
